@@ -11,3 +11,4 @@ import RzmqModel.Props.C19
 #print axioms Rzmq.C19.pong_roundtrip
 #print axioms Rzmq.C19.v2_never_pings
 #print axioms Rzmq.C19.no_ping_before_data
+#print axioms Rzmq.C19.heartbeat_commands_are_rfc37
